@@ -545,6 +545,7 @@ def DState.exec1 (d : DState) (op : String) (args : List String) (impl : String)
   | "flush", [u] => do
     let u ← u.toNat?
     pure ({ d with c := d.c.flushOne u }, { txt := "ok" })
+  | "repairfiles", [] => pure (d, { txt := "same" })   -- Repair never touches an object file
   | "drop", [] =>
     -- `DB.Drop`: the whole directory is removed and nothing of the handle's state survives
     pure ({ d with c := { live := d.c.live }, searches := [], tainted := [], cacheUnsure := [], logMark := 0 }, { txt := "ok" })
@@ -570,6 +571,27 @@ def DState.exec1 (d : DState) (op : String) (args : List String) (impl : String)
     pure ({ d with c := { d.c with disk := d.c.disk.apply (.writeObj o) } }, { txt := "ok" })
   | "dropentry", [u, full] => do
     let u ← u.toNat?
+    if full == "2" then
+      -- one field index names the object twice: the entry after its own (before it when it is the
+      -- last) gets its object id
+      let schema := d.c.disk.schema.map (fun img =>
+        match img.index.oidOf u with
+        | none => img
+        | some oid =>
+          let names := (img.index.fields.map (·.name)).toArray.qsort (· < ·) |>.toList
+          let firstName := names.head?
+          let dup (fi : FieldIdx) : FieldIdx :=
+            match fi.idx.findIdx? (fun e => e.2 == oid) with
+            | none => fi
+            | some i =>
+              let j := if i + 1 < fi.idx.length then some (i + 1) else if i > 0 then some (i - 1) else none
+              match j with
+              | none => fi
+              | some j => { fi with idx := fi.idx.mapIdx (fun k e => if k == j then (e.1, oid) else e) }
+          let fields := img.index.fields.map (fun fi => if some fi.name == firstName then dup fi else fi)
+          ({ img with index := { img.index with fields := fields } } : SchemaImg))
+      pure ({ d with c := { d.c with disk := { d.c.disk with schema := schema } } }, { txt := "ok" })
+    else
     let full ← parseBool full
     let schema := d.c.disk.schema.map (fun img =>
       match img.index.oidOf u with
